@@ -18,6 +18,9 @@ def clone_state(rng, st, priv=None):
                            priv_alg=priv, priv_password=bytes(rng.getrandbits(8) for _ in range(12)))
 
 
+ALL_SALTS = set()     # (installation, msgPrivacyParameters) pairs seen in this run
+
+
 class SaltOracle:
     """per key installation: 8 octets, DES = boots || counter, AES = 64-bit counter, +1 per message"""
 
@@ -41,6 +44,7 @@ class SaltOracle:
         if pp in self.seen:
             return f"msgPrivacyParameters {pp.hex()} repeated within one key installation (message {self.n})"
         self.seen.add(pp)
+        ALL_SALTS.add((id(self), pp))
         if priv_alg == 1:
             if pp[:4] != (d["boots"] & 0xFFFFFFFF).to_bytes(4, "big"):
                 return f"DES salt {pp.hex()} does not start with engine boots {d['boots']}"
@@ -203,14 +207,14 @@ def run(chk, model_ok=True):
     nl, nd = sessions.model_compare(chk, all_sess, model_ok)
     chk.coverage.update({
         "evaluations": n_msg + n_pairs,
-        "distinct_nontrivial": n_msg + n_pairs,
+        "distinct_nontrivial": len(ALL_SALTS),
         "rule": "every message of a key installation is compared with all earlier ones (set of salts) and with its "
                 "predecessor (counter + 1, failed encrypting sends accounted for); DES salts must start with the engine boots "
                 "in the message; priv flag and encrypted msgData required; 8-octet windows of the PDU and the requested OIDs "
                 "are searched outside the ciphertext. Sequences: cipher objects alone (privenc, up to "
                 f"{1500 if quick else 30000} consecutive encrypts) and sessions with mixed get / get_many / refresh, replies with "
                 "changing boots/time, timeouts, oversized requests and set_keys re-installations; every history replayed on "
-                "the Lean model with the seed read off the first salt. distinct = messages (each has a distinct salt).",
+                "the Lean model with the seed read off the first salt. distinct = distinct (key installation, msgPrivacyParameters) pairs actually observed (equals the number of messages iff no salt repeated).",
         "samples": [{"stream": "privenc", "request": st.lines[0][:200], "impl": st.impl[0][:120]}] if st.lines else [],
         "session_messages": n_msg, "cipher_level_encrypts": n_pairs, "key_installations": installs,
         "longest_installation_messages": longest,
